@@ -187,7 +187,17 @@ def generate(seed: int, run: int, tier: str) -> dict:
                 ops.append({"op": "probe"})
         ops.append({"op": "probe"})
     else:  # virtual source tree: documented/undocumented/private modules in shapes the real tree lacks
-        ops.append({"op": "virtual", "vseed": rng.randrange(10**9), "perm": rng.randrange(0, 10**6), "faults": [_fault(rng)] if rng.random() < 0.3 else []})
+        r = rng.random()
+        if r < 0.35:
+            # a source error inside an evaluation-disabled window aborts one generation; a later
+            # generation in the same process must still finish with the flag at its default
+            ops.append({"op": "virtual", "vseed": rng.randrange(10**9), "perm": rng.randrange(0, 10**6), "faults": [], "broken": True})
+            ops.append({"op": "probe"})
+            ops.append({"op": "virtual", "vseed": rng.randrange(10**9), "perm": rng.randrange(0, 10**6), "faults": []})
+        else:
+            ops.append({"op": "virtual", "vseed": rng.randrange(10**9), "perm": rng.randrange(0, 10**6), "faults": [_fault(rng)] if r < 0.6 else []})
+            if rng.random() < 0.5:
+                ops.append({"op": "virtual", "vseed": rng.randrange(10**9), "perm": rng.randrange(0, 10**6), "faults": []})
         ops.append({"op": "probe"})
     return _job(seed, run, env, ops)
 
@@ -490,10 +500,6 @@ def _run_generation(fs, op, vios, faults_count, probes) -> dict:
             info["swallowed"] = True
         info["flag_after_abort"] = _flag_ok()
         probes["evaluation flag left off by an aborted generation (probe only)"] = int(not info["flag_after_abort"])
-        if not _flag_ok():
-            # restore by hand, as a user would have to; recorded as a probe, not a violation
-            from sympy.core.parameters import global_parameters  # pylint: disable=import-outside-toplevel
-            global_parameters.evaluate = True
     info["pages"] = pages
     return info
 
@@ -535,7 +541,7 @@ def _run_post(fs, op, vios, faults_count, probes) -> dict:
     return info
 
 
-def _virtual_tree(vseed: int) -> tuple[dict, set]:
+def _virtual_tree(vseed: int, broken: bool = False) -> tuple[dict, set]:
     """A small synthetic documented tree in shapes the real one lacks (nested directory named
     like an excluded one, private files and packages, undocumented modules, directives in both
     orders, several documented members, members without directives)."""
@@ -547,10 +553,10 @@ def _virtual_tree(vseed: int) -> tuple[dict, set]:
     member_tpl = ['{name} = symbols.{sym}\n"""\n{text} :symbols:`{sym}`.\n"""\n']
     syms = ["mass", "time", "length", "force", "speed", "temperature", "acceleration", "energy"]
 
-    def law_source(i, documented=True):
+    def law_source(i, documented=True, broken=False):
         a, b, c = rng.sample(syms, 3)
         head = f'"""\nVirtual law {i}\n{"=" * (12 + len(str(i))) if documented else ""}\n\nDescription of law {i}.\n"""\n' if documented or rng.random() < 0.5 else ""
-        body = "from sympy import Eq\nfrom symplyphysics import symbols, clone_as_symbol\n\n"
+        body = "from sympy import Eq\nfrom symplyphysics import symbols, clone_as_symbol, Symbol, units, dimensionless\nfrom symplyphysics.core.operations.symbolic import FiniteDifference, Average\n\n"
         body += member_tpl[0].format(name="first", sym=a, text="First is")
         body += member_tpl[0].format(name="second", sym=b, text="Second is")
         body += f'third = clone_as_symbol(symbols.{c}, subscript="{i}")\n"""\nThird.\n"""\n'
@@ -560,6 +566,16 @@ def _virtual_tree(vseed: int) -> tuple[dict, set]:
         body += f'law = Eq(first, second * third + {i + 2})\n"""\nSome text before.\n\n{directive}\nSome text after.\n"""\n'
         if rng.random() < 0.5:
             body += f'extra = Eq(second, first / third)\n"""\n{directive}\n"""\n'
+        if rng.random() < 0.5:
+            # a wrapper around a module-local symbol whose *printed* name collides across modules
+            dim, ltx = rng.choice([("units.length", "x"), ("dimensionless", "\\\\xi"), ("units.time", "x_t"), ("units.mass", "\\\\chi")])
+            wrapper = rng.choice(["FiniteDifference", "Average"])
+            body += f'_x = Symbol("x", {dim}, display_latex="{ltx}")\ndelta = {wrapper}(_x)\n"""\nChange of x.\n"""\n'
+        if rng.random() < 0.3:
+            # one member, two consecutive placeholder docstrings
+            body += f'twice = Eq(third, first + second)\n"""\n:laws:symbol::\n"""\n"""\n:laws:latex::\n"""\n'
+        if broken:
+            body += 'broken = Eq(first, this_name_is_not_defined * second)\n"""\n:laws:symbol::\n"""\n'
         if rng.random() < 0.4:
             body += "\n_private_value = first + second\n\n\ndef calculate_it(x_):\n    \"\"\"Documented function.\"\"\"\n    return x_\n"
         return head + body
@@ -583,7 +599,140 @@ def _virtual_tree(vseed: int) -> tuple[dict, set]:
     idx = [0]
     for top in rng.sample(["alpha", "core", "beta", "drafts"], rng.choice([2, 3])):
         fill(f"{root}/{top}", 0, idx)
+    if broken:
+        # a source error inside an evaluation-disabled window of some visited, documented module
+        cands = sorted(p for p in files if p.endswith(".py") and not p.endswith("__init__.py") and "/core/" not in p and "/_" not in p and "/alpha/drafts/" not in p and not p.startswith(root + "/core"))
+        if cands:
+            files[rng.choice(cands)] = law_source(999, documented=True, broken=True)
     return files, set()
+
+
+
+def _virtual_symbol_tables(files: dict, pages: dict, vios: list) -> int:
+    """Independent path for synthetic modules: exec the source ourselves (default evaluation,
+    fresh namespace, no generator state) and compare every symbol table on the page."""
+    from symplyphysics.core.dimensions import print_dimension  # pylint: disable=import-outside-toplevel
+    from symplyphysics.docs.printer_code import code_str  # pylint: disable=import-outside-toplevel
+    from symplyphysics.docs.printer_latex import latex_str  # pylint: disable=import-outside-toplevel
+    n = 0
+    for name, text in sorted(pages.items()):
+        src_path = name[:-4].replace(".", "/")
+        src = files.get("simsrc/" + src_path + ".py")
+        if src is None:
+            continue
+        ns: dict = {}
+        try:
+            exec(compile(src, src_path, "exec"), ns)  # pylint: disable=exec-used
+        except Exception:  # pylint: disable=broad-except
+            continue
+        for b in re.split(r"(?m)^\.\. py:data:: ", text)[1:]:
+            member = b.split("\n", 1)[0].strip()
+            m = re.search(r"\nSymbol:\n    :code:`(.*)`\n\nLatex:\n    :math:`(.*)`\n\nDimension:\n    :code:`(.*)`\n", b)
+            obj = ns.get(member)
+            if not m or obj is None or not hasattr(obj, "dimension"):
+                continue
+            n += 1
+            exp = (code_str(obj), latex_str(obj), print_dimension(obj.dimension))
+            got = (m.group(1), m.group(2), m.group(3))
+            if exp != got:
+                vios.append(V("faithful", f"virtual-symbol-table|{member}", f"synthetic page {name} lists {member} as code/latex/dimension {got}; executing the module on its own gives {exp}").v)
+    return n
+
+
+def _run_virtual(fs, op, vios, faults, probes, aborted):
+    build = _S["build"]
+    was_pending = aborted["pending"]
+    broken = bool(op.get("broken"))
+    files, _ = _virtual_tree(int(op["vseed"]), broken=broken)
+    fs.vsrc = files
+    fs.vroot = "simsrc/vpkg"
+    fs.begin(int(op.get("perm", 0)), op.get("faults"))
+    fs.files.clear()
+    status = "ok"
+    flag_bad_pages = []
+    orig_law = build._process_law  # pylint: disable=protected-access
+
+    def law(directory, filename, output_dir, quiet):
+        r = orig_law(directory, filename, output_dir, quiet)
+        if not _flag_ok():
+            flag_bad_pages.append(f"{directory}/{filename}")
+        return r
+
+    build._process_law = law  # pylint: disable=protected-access
+    try:
+        build.generate_laws_docs("simsrc/vpkg", OUT, ["core", "alpha/drafts"], True)
+    except OSError as e:
+        status = f"raised:OSError:{e.errno}"
+    except Exception as e:  # pylint: disable=broad-except
+        status = f"raised:{type(e).__name__}:{str(e)[:160]}"
+    finally:
+        build._process_law = orig_law  # pylint: disable=protected-access
+    fired = list(fs.fired)
+    for f in fired:
+        faults[f"{f['site']}_fail"] = faults.get(f"{f['site']}_fail", 0) + 1
+    if broken:
+        faults["source_error"] = faults.get("source_error", 0) + 1
+    pages = {os.path.relpath(p, OUT): t for p, t in fs.files.items()}
+
+    def vread(p):
+        q = os.path.normpath(p)
+        if q not in files:
+            raise FileNotFoundError(q)
+        return files[q]
+
+    def vlist(d):
+        pref = os.path.normpath(d) + "/"
+        return sorted({q[len(pref):].split("/")[0] for q in files if q.startswith(pref)})
+
+    def visdir(p):
+        pref = os.path.normpath(p) + "/"
+        return any(q.startswith(pref) for q in files)
+
+    exp = expected_pages("simsrc/vpkg", ["core", "alpha/drafts"], read=vread, listdir=vlist, isdir=visdir)
+    faults["virtual_tree"] = faults.get("virtual_tree", 0) + 1
+    probes["synthetic documented tree generated"] = 1
+    if not fired and not broken:
+        if status != "ok":
+            vios.append(V("total", "virtual-tree", f"generation of a synthetic documented tree failed: {status}").v)
+        else:
+            if set(pages) != exp:
+                missing, extra = sorted(exp - set(pages)), sorted(set(pages) - exp)
+                vios.append(V("pages", "virtual-page-set", f"synthetic tree: missing pages {missing[:4]}, unexpected pages {extra[:4]}").v)
+            for name, text in sorted(pages.items()):
+                one: list = []
+                _check_pages_common(fs, {name: text}, one, post=False)
+                for v in one:
+                    # synthetic page names are arbitrary: the subject is the oracle, not the page
+                    kind = v["subject"].split("|")[0]
+                    vios.append(V(v["oracle"], "virtual-" + kind, v["detail"]).v)
+                if re.search(r"(?m)^\s*Some text before\.", text) and "Some text after." not in text:
+                    vios.append(V("faithful", "virtual-prose-lost", f"synthetic page {name} lost the prose after a directive").v)
+            # after an aborted generation the flag may still be off until the first reset of this
+            # generation ran, so pages are judged individually only in a clean process state; the
+            # end-of-generation state is always judged (every synthetic law has a reset window)
+            has_window = any(("simsrc/" + n[:-4].replace(".", "/") + ".py") in files for n in pages)
+            if (flag_bad_pages and not was_pending) or (not _flag_ok() and (has_window or not was_pending)):
+                vios.append(V("flag", "after-virtual", f"evaluation flag not default after generating a synthetic tree (first bad page: {(flag_bad_pages or ['end'])[0]}; previous generation aborted: {was_pending})").v)
+            n = _virtual_symbol_tables(files, pages, vios)
+            probes["synthetic symbol tables compared with an independent exec"] = int(n > 0)
+            if aborted["pending"]:
+                probes["successful generation after an aborted one in the same process"] = 1
+            aborted["pending"] = False
+    else:
+        probes["fault fired inside a synthetic-tree generation"] = 1
+        if status == "ok":
+            aborted["pending"] = False
+            missing = sorted(exp - set(pages))
+            if missing:
+                what = f"an injected {fired[0]['errno']} at {fired[0]['site']}#{fired[0]['k']}" if fired else "a source error in a documented module"
+                vios.append(V("total", f"silent-failure|{fired[0]['site'] if fired else 'source_error'}", f"{what} was swallowed on a synthetic tree: generation returned normally but pages are missing: {missing[:3]}").v)
+        else:
+            aborted["pending"] = True
+            probes["evaluation flag left off by an aborted generation (probe only)"] = int(not _flag_ok()) or probes.get("evaluation flag left off by an aborted generation (probe only)", 0)
+    fs.vsrc = None
+    outcome = status.split(":")[0] + "|" + core.digest({n: hashlib.sha256(t.encode()).hexdigest() for n, t in pages.items()})[:16]
+    f0 = fired[0] if fired else {"site": "source_error" if broken else "-", "k": 0}
+    return outcome, f"{op.get('perm', 0)}|virtual{op['vseed']}|{f0['site']}|{f0['k']}|"
 
 
 def child_run(job: dict) -> dict:  # pylint: disable=too-many-branches,too-many-statements
@@ -605,6 +754,7 @@ def child_run(job: dict) -> dict:  # pylint: disable=too-many-branches,too-many-
     steps = 0
     last_gen_pages = None
     prehist = []
+    aborted = {"pending": False}
     for step, op in enumerate(job["ops"]):
         steps += 1
         k = op["op"]
@@ -709,68 +859,15 @@ def child_run(job: dict) -> dict:  # pylint: disable=too-many-branches,too-many-
                 states.append(f"{job['env'].get('hashseed')}|page|{name}|{f0['site']}|{f0['k']}|{core.digest(prehist)[:6]}")
                 prehist.append("p" + name)
         elif k == "virtual":
-            files, _ = _virtual_tree(int(op["vseed"]))
-            fs.vsrc = files
-            fs.vroot = "simsrc/vpkg"
-            fs.begin(int(op.get("perm", 0)), op.get("faults"))
-            fs.files.clear()
-            status = "ok"
-            try:
-                build.generate_laws_docs("simsrc/vpkg", OUT, ["core", "alpha/drafts"], True)
-            except OSError as e:
-                status = f"raised:OSError:{e.errno}"
-            except Exception as e:  # pylint: disable=broad-except
-                import traceback  # pylint: disable=import-outside-toplevel
-                status = f"raised:{type(e).__name__}:{str(e)[:200]}:{traceback.format_exc()[-600:]}"
-            fired = list(fs.fired)
-            for f in fired:
-                faults[f"{f['site']}_fail"] = faults.get(f"{f['site']}_fail", 0) + 1
-            pages = {os.path.relpath(p, OUT): t for p, t in fs.files.items()}
-
-            def vread(p):
-                q = os.path.normpath(p)
-                if q not in files:
-                    raise FileNotFoundError(q)
-                return files[q]
-
-            def vlist(d):
-                pref = os.path.normpath(d) + "/"
-                return sorted({q[len(pref):].split("/")[0] for q in files if q.startswith(pref)})
-
-            def visdir(p):
-                pref = os.path.normpath(p) + "/"
-                return any(q.startswith(pref) for q in files)
-
-            exp = expected_pages("simsrc/vpkg", ["core", "alpha/drafts"], read=vread, listdir=vlist, isdir=visdir)
-            faults["virtual_tree"] = faults.get("virtual_tree", 0) + 1
-            if not fired:
-                if status != "ok":
-                    vios.append(V("total", "virtual-tree", f"generation of a synthetic documented tree failed: {status}").v)
-                else:
-                    if set(pages) != exp:
-                        missing, extra = sorted(exp - set(pages)), sorted(set(pages) - exp)
-                        vios.append(V("pages", "virtual-page-set", f"synthetic tree: missing pages {missing[:4]}, unexpected pages {extra[:4]}").v)
-                    _check_pages_common(fs, pages, vios, post=False)
-                    if not _flag_ok():
-                        vios.append(V("flag", "after-virtual", "evaluation flag not default after generating a synthetic tree").v)
-                    # rendering check: every directive got the code/latex form of the member's value
-                    for name, text in pages.items():
-                        if re.search(r"(?m)^\s*Some text before\.", text) and "Some text after." not in text:
-                            vios.append(V("faithful", "virtual-prose-lost", f"synthetic page {name} lost the prose after a directive").v)
-            elif status == "ok":
-                missing = sorted(exp - set(pages))
-                if missing:
-                    vios.append(V("total", f"silent-failure|{fired[0]['site']}", f"an injected {fired[0]['errno']} at {fired[0]['site']}#{fired[0]['k']} was swallowed on a synthetic tree; missing {missing[:3]}").v)
-            if not _flag_ok():
-                from sympy.core.parameters import global_parameters  # pylint: disable=import-outside-toplevel
-                global_parameters.evaluate = True
-            fs.vsrc = None
-            outcome = status + "|" + core.digest({n: hashlib.sha256(t.encode()).hexdigest() for n, t in pages.items()})[:16]
-            f0 = fired[0] if fired else {"site": "-", "k": 0}
-            states.append(f"{job['env'].get('hashseed')}|{op.get('perm', 0)}|virtual{op['vseed']}|{f0['site']}|{f0['k']}|")
-            probes["synthetic documented tree generated"] = 1
+            outcome, state_key = _run_virtual(fs, op, vios, faults, probes, aborted)
+            states.append(f"{job['env'].get('hashseed')}|{state_key}")
         elif k == "probe":
-            outcome = _probe(vios, f"(after step {step})")
+            if aborted["pending"]:
+                # an aborted generation did not "finish": its flag state is a probe, not a verdict
+                probes["library use right after an aborted generation (flag not judged)"] = 1
+                outcome = "skipped-after-abort"
+            else:
+                outcome = _probe(vios, f"(after step {step})")
         else:
             raise ValueError(k)
         events.append([step, k, outcome])
